@@ -146,6 +146,19 @@ Section Comparators.
     && forallb (fun g => mem g gs) (dkeys keyf inp)
     && adjacent_by (fun g h => less (map snd ks) (head_vals ks inp g) (head_vals ks inp h)) gs.
 
+  (* sort.SliceStable on n <= 20 elements IS insertionSort_func (sort/zsortfunc.go: stable_func, blockSize 20):
+       for i := a+1; i < b; i++ { for j := i; j > a && less(j, j-1); j-- { swap(j, j-1) } }
+     -- a function of the callback alone, strict weak order or not.  [ins_rev] inserts into the reversed sorted prefix. *)
+  Fixpoint ins_rev {A} (lt : A -> A -> bool) (x : A) (rp : list A) : list A :=
+    match rp with
+    | [] => [x]
+    | y :: rp' => if lt x y then y :: ins_rev lt x rp' else x :: rp
+    end.
+  Definition isort {A} (lt : A -> A -> bool) (l : list A) : list A := rev (fold_left (fun rp x => ins_rev lt x rp) l []).
+  (* the verb as a function, for at most 20 distinct groups *)
+  Definition sort_model (ks : list (bytes * sflag)) (inp : list record) : list record :=
+    sort_output ks inp (isort (fun g h => less (map snd ks) (head_vals ks inp g) (head_vals ks inp h)) (dkeys (sort_keyf ks) inp)).
+
   (* DSL sort(array, flags | function): elements are single-field records (name, value); equal-comparing elements may
      come out in any order, so there is no grouping: permutation + no later element strictly less than an earlier one *)
   Definition field_val (name : bytes) (r : record) : bytes := match get name r with Some v => v | None => [] end.
